@@ -27,6 +27,8 @@ FAMILIES = {
     'If': ('stmt', ['try:\n    __FST_\nfinally:\n    pass', '__FST_', 'while once:\n    __FST_\n    break']),
     'Assign': ('stmt', ['__FST_', 'if flag:\n    __FST_\nelse:\n    other()', 'with lock:\n    __FST_']),
     'unwrap_list': ('expr', ['__FST_e', '__FST_e', '(__FST_e)', 'wrap(__FST_e)']),   # [[...]] -> [...]: still matches while nested
+    # a captured expression placed into non-body slots of a statement template (with-item with and without 'as', call argument)
+    'assign_value': ('stmt', ['with __FST_val as handle:\n    pass', 'with __FST_val as handle:\n    pass', 'use(__FST_val)', 'other = [__FST_val, 1]']),   # (a BARE 'with __FST_x:' slot splats sequences by documented design: not used)
 }
 
 
@@ -54,6 +56,8 @@ def build_pattern(fam):
         return m.MAssign
     if fam == 'unwrap_list':
         return m.MList(elts=[m.M(e=m.MList)])
+    if fam == 'assign_value':
+        return m.MAssign(value=m.M(val=m.MNOT(m.MOR(m.MYield, m.MYieldFrom, m.MStarred, m.MNamedExpr))))  # values that need no special enclosure
     raise KeyError(fam)
 
 
@@ -63,6 +67,8 @@ def ref_matches(fam, n, plain=False):
         return False
     if fam == 'unwrap_list':
         return isinstance(n, ast.List) and len(n.elts) == 1 and isinstance(n.elts[0], ast.List)
+    if fam == 'assign_value':
+        return isinstance(n, ast.Assign) and not isinstance(n.value, (ast.Yield, ast.YieldFrom, ast.Starred, ast.NamedExpr))
     if fam == 'Name_load':
         return isinstance(n, ast.Name) and isinstance(n.ctx, ast.Load)
     if fam == 'Call':
@@ -173,6 +179,8 @@ class Ref:
                 val = node.right
             elif tag == 'e':
                 val = node.elts[0]
+            elif tag == 'val':
+                val = node.value
             else:
                 raise KeyError(tag)
             if getattr(val, '_placed', False):
@@ -211,6 +219,17 @@ class Ref:
                             node._nomatch = True
                             node._tpos = (x.lineno, x.col_offset)
                             v[i] = node
+        for parent in list(ast.walk(t)):  # tagged expression slots anywhere in the statement template
+            if getattr(parent, '_tmpl', False) is not True:
+                continue
+            for f in parent._fields:
+                v = getattr(parent, f, None)
+                if isinstance(v, ast.Name) and v.id.startswith('__FST_') and v.id != '__FST_':
+                    setattr(parent, f, slot_value(v.id, v))
+                elif isinstance(v, list):
+                    for i, x in enumerate(v):
+                        if isinstance(x, ast.Name) and x.id.startswith('__FST_') and x.id != '__FST_':
+                            v[i] = slot_value(x.id, x)
         return t
 
     def fill_loop(self, node):
